@@ -225,9 +225,47 @@ Qed.
 
 (** * Part 2: the Registry and the program's own bookkeeping *)
 
-(** ** [sym_state] helpers (single thread: thread 0) *)
-Definition stk (sym : sym_state) : list nat := stack_of (ss_stacks sym) 0.
-Definition sref (sym : sym_state) (k : nat) : N := if on_stack (stk sym) k then 1 else 0.
+(** ** [sym_state] helpers.  [stk sym t]: the spans thread [t] has entered; [sref sym k]: the number
+    of threads that have span [k] on their stack (each holds one reference on it, whatever the number
+    of times it entered the span) *)
+Definition stk (sym : sym_state) (t : nat) : list nat := stack_of (ss_stacks sym) t.
+Definition b2n (b : bool) : N := if b then 1 else 0.
+Fixpoint nrefs (stacks : list (nat * list nat)) (k : nat) : N :=
+  match stacks with
+  | [] => 0
+  | (_, s) :: r => b2n (on_stack s k) + nrefs r k
+  end.
+Definition sref (sym : sym_state) (k : nat) : N := nrefs (ss_stacks sym) k.
+
+Lemma nrefs_set_stack stacks t s k :
+  nrefs (set_stack stacks t s) k + b2n (on_stack (stack_of stacks t) k) = nrefs stacks k + b2n (on_stack s k).
+Proof.
+  induction stacks as [|[t' s'] rest IH]; cbn [set_stack stack_of nrefs].
+  - cbn. lia.
+  - destruct (Nat.eqb t' t); cbn [nrefs]; lia.
+Qed.
+
+Lemma on_any_stack_nrefs sym k : on_any_stack sym k = (0 <? sref sym k).
+Proof.
+  unfold on_any_stack, sref. induction (ss_stacks sym) as [|[t s] rest IH]; cbn [existsb nrefs snd]; [reflexivity|].
+  rewrite IH. destruct (on_stack s k); cbn [b2n orb].
+  - symmetry. apply N.ltb_lt. lia.
+  - destruct (N.ltb_spec 0 (nrefs rest k)), (N.ltb_spec 0 (0 + nrefs rest k)); try reflexivity; lia.
+Qed.
+
+Lemma on_stack_any sym t k : on_stack (stk sym t) k = true -> on_any_stack sym k = true.
+Proof.
+  unfold stk, on_any_stack. induction (ss_stacks sym) as [|[t' s] rest IH]; cbn [stack_of existsb snd].
+  - discriminate.
+  - destruct (Nat.eqb t' t).
+    + intros ->. reflexivity.
+    + intros H. rewrite (IH H). apply orb_true_r.
+Qed.
+
+Lemma sref_zero_any sym k : sref sym k = 0 <-> on_any_stack sym k = false.
+Proof.
+  rewrite on_any_stack_nrefs. destruct (N.ltb_spec 0 (sref sym k)); split; intros; try congruence; lia.
+Qed.
 
 Lemma set_handles_length spans k h : List.length (set_handles spans k h) = List.length spans.
 Proof. revert k; induction spans as [|s t IH]; intros [|k]; cbn; auto. Qed.
@@ -358,9 +396,8 @@ Record reg_inv_ex (sym : sym_state) (r : reg) (x : option nat) : Prop := mk_reg_
   ri_refs : forall k s, reg_get r k = Some s ->
       rs_refs s = handles sym k + sref sym k + nchild r k + excess x k /\ 0 < rs_refs s;
   ri_absent : forall k, reg_get r k = None ->
-      handles sym k = 0 /\ on_stack (stk sym) k = false /\ nchild r k = 0;
-  ri_stack : rstack_of (rg_stacks r) 0 = flag_stack (stk sym);
-  ri_single : ss_stacks sym = [] \/ exists s, ss_stacks sym = [(0%nat, s)] }.
+      handles sym k = 0 /\ on_any_stack sym k = false /\ nchild r k = 0;
+  ri_stack : forall t, rstack_of (rg_stacks r) t = flag_stack (stk sym t) }.
 Definition reg_inv (sym : sym_state) (r : reg) : Prop := reg_inv_ex sym r None.
 
 Lemma inv_init : reg_inv sym_init reg_init.
@@ -376,11 +413,11 @@ Proof.
   intros I H. destruct (reg_get r k) as [s|] eqn:E; [eauto|].
   apply (ri_absent _ _ _ I) in E as (E & _ & _). apply live_pos in H. lia.
 Qed.
-Lemma inv_stack_present sym r x k :
-  reg_inv_ex sym r x -> on_stack (stk sym) k = true -> exists s, reg_get r k = Some s.
+Lemma inv_stack_present sym r x t k :
+  reg_inv_ex sym r x -> on_stack (stk sym t) k = true -> exists s, reg_get r k = Some s.
 Proof.
   intros I H. destruct (reg_get r k) as [s|] eqn:E; [eauto|].
-  apply (ri_absent _ _ _ I) in E as (_ & E & _). congruence.
+  apply (ri_absent _ _ _ I) in E as (_ & E & _). apply on_stack_any in H. congruence.
 Qed.
 Lemma inv_parent_present sym r x k s p :
   reg_inv_ex sym r x -> reg_get r k = Some s -> rs_parent s = Some p -> exists ps, reg_get r p = Some ps.
@@ -390,27 +427,19 @@ Proof.
   pose proof (nchild_remove r k s p Hk) as H. cbn [is_child] in H. rewrite Hp, Nat.eqb_refl in H. lia.
 Qed.
 
-Lemma on_any_stack_single sym k :
-  (ss_stacks sym = [] \/ exists s, ss_stacks sym = [(0%nat, s)]) ->
-  on_any_stack sym k = on_stack (stk sym) k.
-Proof.
-  unfold on_any_stack, stk. intros [E | [s E]]; rewrite E; cbn; [reflexivity|]. apply orb_false_r.
-Qed.
-
 (** a change of one span that keeps its parent link, together with any change of the handle counts
     and of the stack that leaves the other spans' summands alone *)
 Lemma inv_update sym sym' r x x' k s s' stacks' :
   reg_inv_ex sym r x ->
   reg_get r k = Some s -> rs_parent s' = rs_parent s ->
   n_spans sym' = n_spans sym ->
-  (forall j, j <> k -> handles sym' j = handles sym j /\ on_stack (stk sym') j = on_stack (stk sym) j
+  (forall j, j <> k -> handles sym' j = handles sym j /\ sref sym' j = sref sym j
                        /\ excess x' j = excess x j) ->
   (rs_refs s' = handles sym' k + sref sym' k + nchild r k + excess x' k /\ 0 < rs_refs s') ->
-  rstack_of stacks' 0 = flag_stack (stk sym') ->
-  (ss_stacks sym' = [] \/ exists t, ss_stacks sym' = [(0%nat, t)]) ->
+  (forall t, rstack_of stacks' t = flag_stack (stk sym' t)) ->
   reg_inv_ex sym' (mk_reg (rg_spans (reg_set r k s')) stacks') x'.
 Proof.
-  intros I Hk Hp Hn Hoth Hrefs Hst Hsingle.
+  intros I Hk Hp Hn Hoth Hrefs Hst.
   set (r' := mk_reg (rg_spans (reg_set r k s')) stacks').
   assert (Hget : forall j, reg_get r' j = if Nat.eqb j k then Some s' else reg_get r j).
   { intros j. change (reg_get r' j) with (reg_get (reg_set r k s') j).
@@ -424,26 +453,25 @@ Proof.
     + eapply (ri_parent _ _ _ I); eauto.
   - intros j sj Hj. rewrite Hget in Hj. rewrite Hnc. destruct (Nat.eqb_spec j k) as [->|Hne].
     + injection Hj as <-. exact Hrefs.
-    + destruct (Hoth j Hne) as (H1 & H2 & H3). unfold sref. rewrite H1, H2, H3.
+    + destruct (Hoth j Hne) as (H1 & H2 & H3). rewrite H1, H2, H3.
       apply (ri_refs _ _ _ I). exact Hj.
   - intros j Hj. rewrite Hget in Hj. rewrite Hnc. destruct (Nat.eqb_spec j k) as [E|Hne]; [discriminate|].
-    destruct (Hoth j Hne) as (H1 & H2 & _). rewrite H1, H2. apply (ri_absent _ _ _ I). exact Hj.
+    destruct (Hoth j Hne) as (H1 & H2 & _). rewrite H1, !on_any_stack_nrefs, H2, <- on_any_stack_nrefs.
+    apply (ri_absent _ _ _ I). exact Hj.
   - exact Hst.
-  - exact Hsingle.
 Qed.
 
 (** removing a span whose last reference is gone: the reference it held on its parent is now in
     excess *)
 Lemma inv_remove sym r k s :
   reg_inv_ex sym r (Some k) -> reg_get r k = Some s -> rs_refs s = 1 ->
-  handles sym k = 0 /\ on_stack (stk sym) k = false /\ nchild r k = 0 /\
+  handles sym k = 0 /\ on_any_stack sym k = false /\ nchild r k = 0 /\
   reg_inv_ex sym (reg_remove r k) (rs_parent s).
 Proof.
   intros I Hk H1.
   destruct (ri_refs _ _ _ I k s Hk) as [Hr _]. cbn [excess] in Hr. rewrite Nat.eqb_refl in Hr.
   assert (Hh : handles sym k = 0) by lia.
-  assert (Hs : on_stack (stk sym) k = false).
-  { unfold sref in Hr. destruct (on_stack (stk sym) k); [lia | reflexivity]. }
+  assert (Hs : on_any_stack sym k = false) by (apply sref_zero_any; lia).
   assert (Hc : nchild r k = 0) by lia.
   split; [exact Hh|]. split; [exact Hs|]. split; [exact Hc|].
   constructor.
@@ -460,7 +488,6 @@ Proof.
     + subst j. split; [exact Hh|]. split; [exact Hs|]. lia.
     + destruct (ri_absent _ _ _ I j Hj) as (A & B & C). split; [exact A|]. split; [exact B|]. lia.
   - exact (ri_stack _ _ _ I).
-  - exact (ri_single _ _ _ I).
 Qed.
 
 (** appending a span whose parent reference is already accounted for as an excess *)
@@ -484,14 +511,14 @@ Proof.
     + injection Hj as <-. cbn in Hp. destruct (Hlp p Hp) as [ps Hps]. eapply reg_get_lt; eauto.
     + eapply (ri_parent _ _ _ I); eauto.
   - intros j sj Hj. rewrite reg_get_app in Hj. rewrite nchild_app, Hh.
-    change (stk sym') with (stk sym). unfold sref at 1. change (stk sym') with (stk sym).
+    change (sref sym' j) with (sref sym j).
     destruct (Nat.eqb_spec j (reg_next r)) as [->|Hne].
-    + injection Hj as <-. cbn [rs_refs new]. rewrite Hns, Hnc. cbn [excess is_child rs_parent new].
+    + injection Hj as <-. cbn [rs_refs new]. apply sref_zero_any in Hns. rewrite Hns, Hnc. cbn [excess is_child rs_parent new].
       destruct lp as [p|]; [|lia].
       destruct (Hlp p eq_refl) as [ps Hps]. apply reg_get_lt in Hps.
       destruct (Nat.eqb_spec p (reg_next r)); lia.
     + destruct (ri_refs _ _ _ I j sj Hj) as [Hr Hpos]. split; [|exact Hpos].
-      rewrite Hr. unfold sref, excess. cbn [is_child rs_parent new]. destruct lp as [p|]; lia.
+      rewrite Hr. unfold excess. cbn [is_child rs_parent new]. destruct lp as [p|]; lia.
   - intros j Hj. rewrite reg_get_app in Hj. destruct (Nat.eqb_spec j (reg_next r)) as [E|Hne]; [discriminate|].
     destruct (ri_absent _ _ _ I j Hj) as (A & B & C). rewrite Hh, nchild_app.
     destruct (Nat.eqb_spec j (reg_next r)); [contradiction|].
@@ -499,7 +526,6 @@ Proof.
     destruct lp as [p|]; [|lia]. destruct (Nat.eqb_spec p j) as [->|]; [|lia].
     destruct (Hlp j eq_refl) as [ps Hps]. congruence.
   - exact (ri_stack _ _ _ I).
-  - exact (ri_single _ _ _ I).
 Qed.
 
 (** ** Everything of a span but its reference count *)
@@ -540,13 +566,13 @@ Proof.
   destruct (Nat.eqb j k); reflexivity.
 Qed.
 
-(** ** The Registry operations of a well-formed single-threaded program *)
+(** ** The Registry operations of a well-formed program; [tid]: the thread that issues the operation *)
 
-Lemma current_ok sym r : reg_inv sym r -> reg_current_span r 0 = first_outer (stk sym).
+Lemma current_ok sym r tid : reg_inv sym r -> reg_current_span r tid = first_outer (stk sym tid).
 Proof.
   intros I. unfold reg_current_span. rewrite (ri_stack _ _ _ I), stack_current_flag.
-  destruct (first_outer (stk sym)) as [c|] eqn:E; [|reflexivity].
-  apply first_outer_on_stack in E. destruct (inv_stack_present _ _ _ _ I E) as [s Hs].
+  destruct (first_outer (stk sym tid)) as [c|] eqn:E; [|reflexivity].
+  apply first_outer_on_stack in E. destruct (inv_stack_present _ _ _ _ _ I E) as [s Hs].
   unfold reg_present. rewrite Hs. reflexivity.
 Qed.
 
@@ -563,7 +589,6 @@ Proof.
     + intros j Hne. repeat split. cbn. destruct (Nat.eqb_spec p j); [congruence | reflexivity].
     + cbn [rs_refs with_refs excess] in *. rewrite Nat.eqb_refl. lia.
     + exact (ri_stack _ _ _ I).
-    + exact (ri_single _ _ _ I).
 Qed.
 
 Lemma clone_ok sym r k :
@@ -585,18 +610,17 @@ Proof.
     + rewrite handles_set, Nat.eqb_refl. destruct (Nat.ltb_spec k (n_spans sym)); [|lia].
       cbn [rs_refs with_refs excess] in *. change (sref (mk_sym _ (ss_stacks sym)) k) with (sref sym k). lia.
     + exact (ri_stack _ _ _ I).
-    + exact (ri_single _ _ _ I).
 Qed.
 
-Lemma new_span_ok sym r cs meta pk raw :
+Lemma new_span_ok sym r tid cs meta pk raw :
   reg_inv sym r -> wf_parent sym pk = true ->
   let lp := match pk with
             | PKRoot => None
             | PKExplicit j => Some j
-            | PKCtx => first_outer (stk sym)
+            | PKCtx => first_outer (stk sym tid)
             end in
   exists r1,
-    reg_new_span r 0 meta pk raw = ROk (reg_app r1 (mk_rspan meta raw lp 1 []), reg_next r) /\
+    reg_new_span r tid meta pk raw = ROk (reg_app r1 (mk_rspan meta raw lp 1 []), reg_next r) /\
     same_shape r r1 /\
     (forall p, lp = Some p -> exists ps, reg_get r p = Some ps) /\
     reg_inv (mk_sym (ss_spans sym ++ [mk_sspan cs 1]) (ss_stacks sym))
@@ -617,8 +641,8 @@ Proof.
     rewrite (reg_get_set_present _ _ _ _ _ Hp), Nat.eqb_refl. eauto. }
   unfold reg_new_span. destruct pk as [| |j]; cbn [wf_parent] in Hwf.
   - (* contextual *)
-    rewrite (current_ok _ _ I). subst lp. destruct (first_outer (stk sym)) as [c|] eqn:Ec.
-    + apply first_outer_on_stack in Ec as Hon. destruct (inv_stack_present _ _ _ _ I Hon) as [s Hs].
+    rewrite (current_ok _ _ tid I). subst lp. destruct (first_outer (stk sym tid)) as [c|] eqn:Ec.
+    + apply first_outer_on_stack in Ec as Hon. destruct (inv_stack_present _ _ _ _ _ I Hon) as [s Hs].
       destruct (Hsome c s eq_refl Hs) as (r1 & E1 & E2 & E3). exists r1. split; [exact E1|].
       split; [exact E2|]. split; [|exact E3]. intros p Ep. injection Ep as <-. eauto.
     + exists r. split; [reflexivity|]. split; [apply same_shape_refl|]. split; [discriminate|].
@@ -632,44 +656,54 @@ Proof.
     split; [exact E2|]. split; [|exact E3]. intros p Ep. injection Ep as <-. eauto.
 Qed.
 
-Lemma single_set_stack sym s :
-  (ss_stacks sym = [] \/ exists t, ss_stacks sym = [(0%nat, t)]) ->
-  exists t, set_stack (ss_stacks sym) 0 s = [(0%nat, t)].
-Proof. intros [E | [t E]]; rewrite E; cbn; eauto. Qed.
+Lemma sym_stk_set sym spans tid s t :
+  stk (mk_sym spans (set_stack (ss_stacks sym) tid s)) t = if Nat.eqb t tid then s else stk sym t.
+Proof. unfold stk. cbn [ss_stacks]. apply stack_of_set. Qed.
 
-Lemma sym_stk_set sym spans s : stk (mk_sym spans (set_stack (ss_stacks sym) 0 s)) = s.
-Proof. unfold stk. cbn [ss_stacks]. rewrite stack_of_set. reflexivity. Qed.
+Lemma sref_set_stack sym spans tid s k :
+  sref (mk_sym spans (set_stack (ss_stacks sym) tid s)) k + b2n (on_stack (stk sym tid) k)
+  = sref sym k + b2n (on_stack s k).
+Proof. unfold sref, stk. cbn [ss_stacks]. apply nrefs_set_stack. Qed.
+
+(** the Registry's stacks after thread [tid]'s stack has been replaced *)
+Lemma stacks_set_ok sym r spans tid s :
+  (forall t, rstack_of (rg_stacks r) t = flag_stack (stk sym t)) ->
+  forall t, rstack_of (rset_stack (rg_stacks r) tid (flag_stack s)) t
+            = flag_stack (stk (mk_sym spans (set_stack (ss_stacks sym) tid s)) t).
+Proof.
+  intros H t. rewrite rstack_of_set, sym_stk_set. destruct (Nat.eqb t tid); [reflexivity | apply H].
+Qed.
 
 Lemma on_stack_cons s k j : on_stack (k :: s) j = Nat.eqb j k || on_stack s j.
 Proof. reflexivity. Qed.
 
-Lemma enter_ok sym r k :
+Lemma enter_ok sym r tid k :
   reg_inv sym r -> live sym k = true ->
-  exists r1, reg_enter r 0 k = ROk r1 /\ same_shape r r1 /\
-    reg_inv (mk_sym (ss_spans sym) (set_stack (ss_stacks sym) 0 (k :: stk sym))) r1.
+  exists r1, reg_enter r tid k = ROk r1 /\ same_shape r r1 /\
+    reg_inv (mk_sym (ss_spans sym) (set_stack (ss_stacks sym) tid (k :: stk sym tid))) r1.
 Proof.
   intros I Hl. destruct (inv_live_present _ _ _ _ I Hl) as [s Hs].
   destruct (ri_refs _ _ _ I k s Hs) as [Hr Hpos]. cbn [excess] in Hr.
-  set (sym' := mk_sym (ss_spans sym) (set_stack (ss_stacks sym) 0 (k :: stk sym))).
-  assert (Hstk : stk sym' = k :: stk sym) by apply sym_stk_set.
+  set (sym' := mk_sym (ss_spans sym) (set_stack (ss_stacks sym) tid (k :: stk sym tid))).
+  pose proof (fun j => sref_set_stack sym (ss_spans sym) tid (k :: stk sym tid) j) as Hsref.
+  fold sym' in Hsref.
   unfold reg_enter. rewrite (ri_stack _ _ _ I), stack_push_flag.
-  set (stacks' := rset_stack (rg_stacks r) 0 (flag_stack (k :: stk sym))).
-  assert (Hst : rstack_of stacks' 0 = flag_stack (stk sym')).
-  { unfold stacks'. rewrite rstack_of_set, Hstk. reflexivity. }
+  set (stacks' := rset_stack (rg_stacks r) tid (flag_stack (k :: stk sym tid))).
+  assert (Hst : forall t, rstack_of stacks' t = flag_stack (stk sym' t)).
+  { apply stacks_set_ok. exact (ri_stack _ _ _ I). }
   assert (Hoth : forall j, j <> k -> handles sym' j = handles sym j
-                   /\ on_stack (stk sym') j = on_stack (stk sym) j /\ excess None j = excess None j).
-  { intros j Hne. rewrite Hstk, on_stack_cons. destruct (Nat.eqb_spec j k); [contradiction|]. repeat split. }
-  assert (Hsing : ss_stacks sym' = [] \/ exists t, ss_stacks sym' = [(0%nat, t)]).
-  { right. apply single_set_stack. exact (ri_single _ _ _ I). }
-  destruct (on_stack (stk sym) k) eqn:Eon; cbn [negb].
+                   /\ sref sym' j = sref sym j /\ excess None j = excess None j).
+  { intros j Hne. specialize (Hsref j). rewrite on_stack_cons in Hsref.
+    destruct (Nat.eqb_spec j k); [contradiction|]. cbn [orb] in Hsref. repeat split. lia. }
+  specialize (Hsref k). rewrite on_stack_cons, Nat.eqb_refl in Hsref. cbn [orb b2n] in Hsref.
+  destruct (on_stack (stk sym tid) k) eqn:Eon; cbn [negb b2n] in *.
   - (* duplicate: no clone *)
     exists (mk_reg (rg_spans r) stacks'). split; [reflexivity|]. split; [apply same_shape_stacks|].
     rewrite <- (set_nth_same (rg_spans r) k (Some s)) at 1.
     2:{ unfold reg_get in Hs. destruct (nth_error (rg_spans r) k) as [[x|]|]; congruence. }
     change (set_nth (rg_spans r) k (Some s)) with (rg_spans (reg_set r k s)).
     eapply inv_update; eauto.
-    unfold sref. rewrite Hstk, on_stack_cons, Nat.eqb_refl. cbn [orb excess].
-    unfold sref in Hr. rewrite Eon in Hr. split; [exact Hr | exact Hpos].
+    cbn [excess]. change (handles sym' k) with (handles sym k). split; [lia | exact Hpos].
   - (* first enter: clone *)
     assert (Hs' : reg_get (mk_reg (rg_spans r) stacks') k = Some s) by exact Hs.
     unfold reg_clone_span. rewrite Hs'. destruct (N.eqb_spec (rs_refs s) 0); [lia|].
@@ -678,8 +712,7 @@ Proof.
     change (reg_set (mk_reg (rg_spans r) stacks') k (with_refs s (rs_refs s + 1)))
       with (mk_reg (rg_spans (reg_set r k (with_refs s (rs_refs s + 1)))) stacks').
     eapply inv_update; eauto.
-    unfold sref. rewrite Hstk, on_stack_cons, Nat.eqb_refl. cbn [orb excess rs_refs with_refs].
-    unfold sref in Hr. rewrite Eon in Hr. change (handles sym' k) with (handles sym k). lia.
+    cbn [excess rs_refs with_refs]. change (handles sym' k) with (handles sym k). lia.
 Qed.
 
 (** [Layered::try_close] on a span that keeps other references: no callback *)
@@ -692,37 +725,38 @@ Proof.
   destruct (N.leb_spec (rs_refs s) 1); [lia | reflexivity].
 Qed.
 
-Lemma exit_ok {L} (deliver : reg -> nat -> lcallback -> L -> result (reg * L)) sym r l k :
-  reg_inv sym r -> live sym k = true -> on_stack (stk sym) k = true ->
+Lemma exit_ok {L} (deliver : reg -> nat -> lcallback -> L -> result (reg * L)) sym r l tid k :
+  reg_inv sym r -> live sym k = true -> on_stack (stk sym tid) k = true ->
   exists r2,
-    (let '(r1, fresh) := reg_exit_pop r 0 k in
-     if fresh then sub_try_close deliver (close_fuel r1) r1 l 0 k else ROk (r1, l)) = ROk (r2, l) /\
+    (let '(r1, fresh) := reg_exit_pop r tid k in
+     if fresh then sub_try_close deliver (close_fuel r1) r1 l tid k else ROk (r1, l)) = ROk (r2, l) /\
     same_shape r r2 /\
-    reg_inv (mk_sym (ss_spans sym) (set_stack (ss_stacks sym) 0 (remove_first (stk sym) k))) r2.
+    reg_inv (mk_sym (ss_spans sym) (set_stack (ss_stacks sym) tid (remove_first (stk sym tid) k))) r2.
 Proof.
   intros I Hl Hon. destruct (inv_live_present _ _ _ _ I Hl) as [s Hs].
   destruct (ri_refs _ _ _ I k s Hs) as [Hr Hpos]. cbn [excess] in Hr.
-  unfold sref in Hr. rewrite Hon in Hr. apply live_pos in Hl.
-  set (sym' := mk_sym (ss_spans sym) (set_stack (ss_stacks sym) 0 (remove_first (stk sym) k))).
-  assert (Hstk : stk sym' = remove_first (stk sym) k) by apply sym_stk_set.
+  apply live_pos in Hl.
+  set (sym' := mk_sym (ss_spans sym) (set_stack (ss_stacks sym) tid (remove_first (stk sym tid) k))).
+  pose proof (fun j => sref_set_stack sym (ss_spans sym) tid (remove_first (stk sym tid) k) j) as Hsref.
+  fold sym' in Hsref.
   unfold reg_exit_pop. rewrite (ri_stack _ _ _ I), (stack_pop_flag _ _ Hon).
-  set (stacks' := rset_stack (rg_stacks r) 0 (flag_stack (remove_first (stk sym) k))).
-  assert (Hst : rstack_of stacks' 0 = flag_stack (stk sym')).
-  { unfold stacks'. rewrite rstack_of_set, Hstk. reflexivity. }
+  set (stacks' := rset_stack (rg_stacks r) tid (flag_stack (remove_first (stk sym tid) k))).
+  assert (Hst : forall t, rstack_of stacks' t = flag_stack (stk sym' t)).
+  { apply stacks_set_ok. exact (ri_stack _ _ _ I). }
   assert (Hoth : forall j, j <> k -> handles sym' j = handles sym j
-                   /\ on_stack (stk sym') j = on_stack (stk sym) j /\ excess None j = excess None j).
-  { intros j Hne. rewrite Hstk, on_stack_remove_first_other by exact Hne. repeat split. }
-  assert (Hsing : ss_stacks sym' = [] \/ exists t, ss_stacks sym' = [(0%nat, t)]).
-  { right. apply single_set_stack. exact (ri_single _ _ _ I). }
+                   /\ sref sym' j = sref sym j /\ excess None j = excess None j).
+  { intros j Hne. specialize (Hsref j). rewrite on_stack_remove_first_other in Hsref by exact Hne.
+    repeat split. lia. }
+  specialize (Hsref k). rewrite Hon in Hsref. cbn [b2n] in Hsref.
   assert (Hs' : reg_get (mk_reg (rg_spans r) stacks') k = Some s) by exact Hs.
-  destruct (on_stack (remove_first (stk sym) k) k) eqn:Eon; cbn [negb].
+  destruct (on_stack (remove_first (stk sym tid) k) k) eqn:Eon; cbn [negb b2n] in *.
   - (* the removed entry was a duplicate *)
     exists (mk_reg (rg_spans r) stacks'). split; [reflexivity|]. split; [apply same_shape_stacks|].
     rewrite <- (set_nth_same (rg_spans r) k (Some s)) at 1.
     2:{ unfold reg_get in Hs. destruct (nth_error (rg_spans r) k) as [[x|]|]; congruence. }
     change (set_nth (rg_spans r) k (Some s)) with (rg_spans (reg_set r k s)).
     eapply inv_update; eauto.
-    unfold sref. rewrite Hstk, Eon. cbn [excess]. split; [exact Hr | exact Hpos].
+    cbn [excess]. change (handles sym' k) with (handles sym k). split; [lia | exact Hpos].
   - (* last stack entry of the span: its reference is dropped; the handle keeps the span open *)
     unfold close_fuel. rewrite (sub_try_close_keep deliver _ _ _ _ _ _ Hs') by lia.
     eexists. split; [reflexivity|]. split.
@@ -730,7 +764,7 @@ Proof.
     change (reg_set (mk_reg (rg_spans r) stacks') k (with_refs s (rs_refs s - 1)))
       with (mk_reg (rg_spans (reg_set r k (with_refs s (rs_refs s - 1)))) stacks').
     eapply inv_update; eauto.
-    unfold sref. rewrite Hstk, Eon. cbn [excess rs_refs with_refs].
+    cbn [excess rs_refs with_refs].
     change (handles sym' k) with (handles sym k). lia.
 Qed.
 
@@ -753,7 +787,6 @@ Proof.
     cbn [excess]. rewrite Nat.eqb_refl.
     change (sref (mk_sym _ (ss_stacks sym)) k) with (sref sym k). split; [lia | exact Hpos].
   - exact (ri_stack _ _ _ I).
-  - exact (ri_single _ _ _ I).
 Qed.
 
 (** [try_close] on the span whose reference is in excess *)
@@ -769,7 +802,6 @@ Proof.
   - intros j Hne. cbn [excess]. destruct (Nat.eqb_spec k j); [congruence|]. repeat split.
   - cbn [excess rs_refs with_refs]. lia.
   - exact (ri_stack _ _ _ I).
-  - exact (ri_single _ _ _ I).
 Qed.
 
 Lemma try_close_last_refs sym r k s :
